@@ -389,6 +389,94 @@ fn residue_histories(ctx: &Ctx) -> (Evidence, Vec<Violation>) {
     (ev, vs)
 }
 
+/// Sandwich histories: the same message built twice on one builder with a refused build (or two) in between,
+/// [T, U, T] for every accepted pool message T and every refused pool message U (thorough: also [T, U, U', T] and
+/// [T, V, T] with V accepted). State keyed on "what was built last" only shows in this shape.
+fn sandwich_histories(ctx: &Ctx) -> (Evidence, Vec<Violation>) {
+    use rayon::prelude::*;
+    let pool = pool(ctx.seed);
+    let accepted: Vec<usize> = (0..pool.len()).filter(|i| pool[*i].fresh_len.is_some()).collect();
+    let refused: Vec<usize> = (0..pool.len()).filter(|i| pool[*i].fresh_len.is_none()).collect();
+    let thorough = ctx.tier == Tier::Thorough;
+    let parts: Vec<(Evidence, Vec<Violation>)> = accepted
+        .par_iter()
+        .map(|ti| {
+            let mut ev = Evidence::new();
+            ev.sample_cap = 0;
+            let mut vs: Vec<Violation> = Vec::new();
+            let t = &pool[*ti];
+            let fresh_frame = match fresh(&t.msg) {
+                Ok(f) => f,
+                Err(_) => return (ev, vs),
+            };
+            let mut run = |mid: &[usize], ev: &mut Evidence, vs: &mut Vec<Violation>| {
+                ev.evaluations += 1;
+                let r = catch(|| {
+                    let mut b = MessageBuilder::new();
+                    let first = b.build_message(&t.msg).map(|f| f.to_vec()).map_err(|e| format!("{:?}", e));
+                    for m in mid {
+                        let _ = b.build_message(&pool[*m].msg).map(|f| f.len());
+                    }
+                    (first, b.build_message(&t.msg).map(|f| f.to_vec()).map_err(|e| format!("{:?}", e)))
+                });
+                let bad: Option<(String, String)> = match r {
+                    Ok((Ok(a), Ok(b))) if a == fresh_frame && b == fresh_frame => None,
+                    Ok((_, Ok(b))) if b != fresh_frame => {
+                        let pos = b.iter().zip(fresh_frame.iter()).position(|(x, y)| x != y).unwrap_or(b.len().min(fresh_frame.len()));
+                        Some(("c12:frame-depends-on-history".into(), format!("[{}] built, then {:?} , then [{}] again: the second frame differs from a fresh builder's at byte {}", t.label, mid.iter().map(|m| pool[*m].label.as_str()).collect::<Vec<_>>(), t.label, pos)))
+                    }
+                    Ok((_, Err(e))) => Some(("c12:reused-refuses-fresh-accepts".into(), format!("[{}] built, then {:?}, then [{}] again: refused with {}", t.label, mid.iter().map(|m| pool[*m].label.as_str()).collect::<Vec<_>>(), t.label, e))),
+                    Ok(_) => Some(("c12:frame-depends-on-history".into(), format!("[{}]: first build on a new builder differs from another new builder's", t.label))),
+                    Err(p) => Some((panic_signature(&p), format!("panic: {}", p))),
+                };
+                match bad {
+                    None => ev.distinct_by_construction += 1,
+                    Some((sig, msg)) => {
+                        if vs.is_empty() {
+                            let mut hist = vec![t.tree.to_json()];
+                            hist.extend(mid.iter().map(|m| pool[*m].tree.to_json()));
+                            hist.push(t.tree.to_json());
+                            vs.push(Violation { property: "C12".into(), signature: sig, message: msg, case: json!({"kind":"history","history":hist}) });
+                        }
+                    }
+                }
+            };
+            for (k, u) in refused.iter().enumerate() {
+                run(&[*u], &mut ev, &mut vs);
+                if thorough || (k + *ti) % 8 == 0 {
+                    run(&[*u, refused[(k * 7 + *ti) % refused.len()]], &mut ev, &mut vs);
+                }
+            }
+            if thorough {
+                for v in accepted.iter() {
+                    run(&[*v], &mut ev, &mut vs);
+                }
+            } else {
+                // quick: the 24 longest accepted frames and 24 spread over the pool as the middle step
+                for k in 0..48 {
+                    let v = accepted[(k * 97 + *ti * 13) % accepted.len()];
+                    run(&[v], &mut ev, &mut vs);
+                }
+            }
+            (ev, vs)
+        })
+        .collect();
+    let mut ev = Evidence::new();
+    let mut vs = Vec::new();
+    for (e, v) in parts {
+        ev.merge(e);
+        for x in v {
+            if !vs.iter().any(|y: &Violation| y.signature == x.signature) {
+                vs.push(x);
+            }
+        }
+    }
+    ev.class_n("sandwich-histories(same message again after refused/other builds)", ev.evaluations);
+    ev.extra.insert("sandwich_accepted_messages".into(), json!(accepted.len()));
+    ev.extra.insert("sandwich_refused_messages".into(), json!(refused.len()));
+    (ev, vs)
+}
+
 fn retry_histories(ctx: &Ctx) -> (Evidence, Vec<Violation>) {
     use rayon::prelude::*;
     let corp = corpus(ctx.seed);
@@ -552,9 +640,9 @@ fn step_of<'a>(pool: &'a [PoolEntry], np: usize, i: u16) -> StepRef<'a> {
 }
 
 pub fn run(ctx: &Ctx, replay: Option<&J>) -> CheckResult {
-    let rule = "proptest histories: 0..12 calls (build_message on pool messages, one in eight a build_generated_message call of the test_gen feature on the same builder) + a target, drawn from a pool holding every supported type (Default, decoded golden zero/ones/random vectors, generated and \
+    let rule = "proptest histories: 0..12 calls (build_message on pool messages, one in eight a build_generated_message call of the test_gen feature on the same builder) + a target (in half of the cases the target itself, or its pool neighbour of the same type, also sits earlier in the history), drawn from a pool holding every supported type (Default, decoded golden zero/ones/random vectors, generated and \
         synthesised messages), each list filled to capacity (maximum-length frames incl. 64-cell MSM), messages refused at the first step (Empty/Corrupt/MsgNotSupported, \
-        MSM with satellite 0), and messages refused late (last element of a full list out of range, MSM duplicate cell, 1029 with 128 characters). plus systematic two-step histories 'list message refused at element k (every k, every failable field) then the same message cut to k, k-1, k+1 elements', and residue probes: every refused pool message and the 40 longest accepted ones, each followed by a 1059 probe message for every reachable payload length 9..=1023 whose last byte carries one data bit and seven padding bits. oracle: at every \
+        MSM with satellite 0), and messages refused late (last element of a full list out of range, MSM duplicate cell, 1029 with 128 characters). plus systematic two-step histories 'list message refused at element k (every k, every failable field) then the same message cut to k, k-1, k+1 elements', sandwich histories [T, U, T] for every accepted pool message T and every refused one U (plus two refused steps and accepted middle steps), and residue probes: every refused pool message and the 40 longest accepted ones, each followed by a 1059 probe message for every reachable payload length 9..=1023 whose last byte carries one data bit and seven padding bits. oracle: at every \
         step the reused builder returns Ok exactly when a fresh MessageBuilder does and then identical bytes. non-trivial = a longer successful frame or a refused \
         build precedes the target; distinct = hash of the index history"
         .to_string();
@@ -591,26 +679,57 @@ pub fn run(ctx: &Ctx, replay: Option<&J>) -> CheckResult {
     let np = pool.len();
     let cases = ctx.n(1_000_000, 100_000_000);
     let idx = |i: u16| -> usize { (i as usize * np) >> 16 };
+    // rep: 0..=3 none; 4|5 the target itself also sits earlier in the history (at position rep_pos); 6|7 a pool
+    // neighbour of the target (usually the same type with other values) sits there
+    let plan = |hist: &[u16], target: u16, rep: u8, rep_pos: u8| -> Vec<(Option<usize>, u16)> {
+        // (Some(pool index) | None = generated call, raw history value)
+        let mut v: Vec<(Option<usize>, u16)> = hist.iter().map(|i| if *i % 8 == 7 { (None, *i) } else { (Some(idx(*i)), *i) }).collect();
+        let ti = idx(target);
+        if rep >= 4 && !v.is_empty() {
+            let at = rep_pos as usize % v.len();
+            let which = if rep >= 6 { if ti + 1 < np && rep == 6 { ti + 1 } else { ti.saturating_sub(1) } } else { ti };
+            v[at] = (Some(which), 0);
+        }
+        v.push((Some(ti), target));
+        v
+    };
     let (mut ev, vs) = pt_run(
         ctx,
         "c12",
         cases,
-        || (prop::collection::vec(any::<u16>(), 0..12), any::<u16>()),
-        |(hist, target): &(Vec<u16>, u16), ev| {
-            let mut msgs: Vec<StepRef> = hist.iter().map(|i| step_of(pool, np, *i)).collect();
+        || (prop::collection::vec(any::<u16>(), 0..12), any::<u16>(), 0u8..8, any::<u8>()),
+        |(hist, target, rep, rep_pos): &(Vec<u16>, u16, u8, u8), ev| {
+            let pl = plan(hist, *target, *rep, *rep_pos);
+            let msgs: Vec<StepRef> = pl
+                .iter()
+                .map(|(pi, raw)| match pi {
+                    Some(i) => StepRef::Build(&pool[*i].msg),
+                    None => match step_of(pool, np, *raw) {
+                        StepRef::Generated(n, sd) => StepRef::Generated(n, sd),
+                        other => other,
+                    },
+                })
+                .collect();
             let t = &pool[idx(*target)];
-            msgs.push(StepRef::Build(&t.msg));
             let r = oracle_steps(&msgs);
             if let (Ok(()), Some(ev)) = (&r, ev) {
                 let tl = t.fresh_len.unwrap_or(0);
-                let longer_before = hist.iter().filter(|i| **i % 8 != 7).any(|i| pool[idx(*i)].fresh_len.map(|l| l > tl).unwrap_or(false));
-                let failed_before = hist.iter().filter(|i| **i % 8 != 7).any(|i| pool[idx(*i)].fresh_len.is_none());
-                if hist.iter().any(|i| *i % 8 == 7) {
+                let before = &pl[..pl.len() - 1];
+                let longer_before = before.iter().filter_map(|(pi, _)| *pi).any(|i| pool[i].fresh_len.map(|l| l > tl).unwrap_or(false));
+                let failed_before = before.iter().filter_map(|(pi, _)| *pi).any(|i| pool[i].fresh_len.is_none());
+                let same_before = before.iter().filter_map(|(pi, _)| *pi).any(|i| i == idx(*target));
+                if before.iter().any(|(pi, _)| pi.is_none()) {
                     ev.class("history/has-build_generated_message-call");
                 }
-                if t.fresh_len.is_some() && (longer_before || failed_before) {
-                    let mut key: Vec<u64> = hist.iter().map(|i| idx(*i) as u64).collect();
-                    key.push(idx(*target) as u64);
+                if same_before && t.fresh_len.is_some() {
+                    ev.class("history/target-was-built-earlier-on-this-builder");
+                    if failed_before {
+                        ev.class("history/target-built-earlier-and-a-refused-build-in-between-or-before");
+                    }
+                }
+                if t.fresh_len.is_some() && (longer_before || failed_before || same_before) {
+                    let mut key: Vec<u64> = pl.iter().map(|(pi, raw)| pi.map(|i| i as u64).unwrap_or(1 << 40 | *raw as u64)).collect();
+                    key.push(pl.len() as u64);
                     ev.nontrivial_hash(hash_u64s(&key));
                     if longer_before {
                         ev.class("history/longer-frame-before-target");
@@ -621,9 +740,8 @@ pub fn run(ctx: &Ctx, replay: Option<&J>) -> CheckResult {
                     if t.pad_bits && longer_before {
                         ev.class("history/target-with-zero-tail-bit-after-longer-frame");
                     }
-                    if ev.want_sample() && hist.len() >= 3 {
-                        let mut labels: Vec<&str> = hist.iter().map(|i| if *i % 8 == 7 { "build_generated_message" } else { pool[idx(*i)].label.as_str() }).collect();
-                        labels.push(t.label.as_str());
+                    if ev.want_sample() && pl.len() >= 4 {
+                        let labels: Vec<&str> = pl.iter().map(|(pi, _)| pi.map(|i| pool[i].label.as_str()).unwrap_or("build_generated_message")).collect();
                         ev.sample(json!({"history":labels,"target_frame_len":tl}));
                     }
                 } else {
@@ -632,17 +750,19 @@ pub fn run(ctx: &Ctx, replay: Option<&J>) -> CheckResult {
             }
             r
         },
-        |(hist, target)| {
-            let mut trees: Vec<J> = hist
+        |(hist, target, rep, rep_pos)| {
+            let pl = plan(hist, *target, *rep, *rep_pos);
+            let trees: Vec<J> = pl
                 .iter()
-                .map(|i| match step_of(pool, np, *i) {
-                    StepRef::Generated(n, sd) => json!({"t":"generated","number":n,"seed":sd}),
-                    StepRef::Build(_) => pool[idx(*i)].tree.to_json(),
+                .map(|(pi, raw)| match pi {
+                    Some(i) => pool[*i].tree.to_json(),
+                    None => match step_of(pool, np, *raw) {
+                        StepRef::Generated(n, sd) => json!({"t":"generated","number":n,"seed":sd}),
+                        StepRef::Build(_) => J::Null,
+                    },
                 })
                 .collect();
-            trees.push(pool[idx(*target)].tree.to_json());
-            let mut labels: Vec<&str> = hist.iter().map(|i| if *i % 8 == 7 { "build_generated_message" } else { pool[idx(*i)].label.as_str() }).collect();
-            labels.push(pool[idx(*target)].label.as_str());
+            let labels: Vec<&str> = pl.iter().map(|(pi, _)| pi.map(|i| pool[i].label.as_str()).unwrap_or("build_generated_message")).collect();
             json!({"kind":"history","labels":labels,"history":trees})
         },
     );
@@ -654,6 +774,9 @@ pub fn run(ctx: &Ctx, replay: Option<&J>) -> CheckResult {
         let (pev, pvs) = residue_histories(ctx);
         ev.merge(pev);
         rvs.extend(pvs);
+        let (sev, svs) = sandwich_histories(ctx);
+        ev.merge(sev);
+        rvs.extend(svs);
         let mut vs2 = vs;
         for v in rvs {
             if !vs2.iter().any(|x: &Violation| x.signature == v.signature) {
